@@ -583,6 +583,24 @@ class Model:
         applied = []  # (sign, letter, arg or None, noop)
         refused = False
         listing = False
+        # what a mode letter governs later is decided by other properties too: a wrongly stored list or flag
+        # is their business as well (the model resynchronises afterwards, so it must be caught here)
+        for ms, _a in groups:
+            for ch in ms:
+                if ch in "be":
+                    e.props |= {"C07", "C10", "C14"}
+                elif ch == "I":
+                    e.props |= {"C07", "C14"}
+                elif ch in "kli":
+                    e.props |= {"C07"} | ({"C09"} if ch == "i" else set())
+                elif ch in "mn":
+                    e.props |= {"C10"}
+                elif ch == "s":
+                    e.props |= {"C10", "C12"}
+                elif ch == "t":
+                    e.props |= {"C09"}
+                elif ch in RANKS:
+                    e.props |= {"C09", "C10", "C01"}
         for ms, args in groups:
             it = iter(args)
             sign = None
